@@ -16,7 +16,7 @@ reg("C16",
     level="model_checking",
     technique="explicit-state BFS over the real ll_data_pdu_buffer<TX,RX,Radio> with a Radio that counts increment_receive/transmit_packet_counter calls, driven like the nrf52 radio interrupt handler, against an independent central with its own CCM packet counters; per-event counter deltas and nonce agreement checked on every transition",
     rule="state = byte image of the real buffer object (rings, SN/NESN bits, counters) + fallback receive buffer + reference model; one transition = one connection event = upper-layer action {none, commit 1 byte, commit 27 bytes, consume, consume after the receive buffer was allocated, new connection = buffer memory reused for advertising + reset_pdu_buffer(), commit 1 byte / consume with the radio interrupt of this event arriving when the call takes its lock_guard} x central {new data, new empty, repeat last PDU, new non-empty PDU with LLID 0} x fault c->p {ok, lost, CRC error, MIC error} x fault p->c {ok, lost}; classes = (ISR path, new/resent data/empty, ack/nak, transmit ring released, kind of answer, central acknowledged). oracle C16: receive counter +1 exactly when a new non-empty PDU is acknowledged through received(), +0 otherwise (resent, empty, CRC, MIC, full); transmit counter +1 exactly when a non-empty PDU leaves the transmit ring on an acknowledge; counter in force for the k-th PDU of each direction equals the central's counter (nonce agreement)",
-    bound="every sequence may contain one new connection (reset_pdu_buffer() on the same object, central restarts with SN=NESN=0) and one non-empty PDU with the reserved LLID 0 (quick units mix58 / mix87: new connection only). units mix58_87 / mix87_58: TransmitSize != ReceiveSize, both directions, 5 events (thorough 6). quick: TX=RX=29 all reachable states (fixpoint, incl. a central repeating acknowledged PDUs); TX=RX=58 both directions 6 connection events, 87 both directions 5, 58 with a central that also repeats acknowledged PDUs 4; receive direction alone (nothing committed): 58 12 events, 87 8 events; transmit direction alone (central sends empty PDUs): 58 7 events, 87 8 events; real nrf52 ISR as device under test: 58 both directions 4 events. thorough: 58 both directions 9 events (alphabet without new connection / LLID 0) and 7 events (with them), 61 (library default) 6, 87 6, repeated-acknowledged variant 6; receive direction alone: fixpoint = all reachable states for 58 (also with repeated acknowledged PDUs) and 87, 87 with repeated acknowledged PDUs 12 events; transmit direction alone 9 (58) / 12 (87) events; real ISR: 58 7 events, 87 6, receive direction fixpoint, transmit direction 9. nrf52.cpp (radio_hardware_with_crypto_support, real nrf52_radio object, registers in RAM): all sequences of 8 (thorough 10) steps of {setup_encryption, start/stop receive/transmit encryption in the orders the link layer's start / pause / disconnect procedures produce, non-empty PDUs in both directions acknowledged or resent}: no (key/IV, direction, packet counter) given to the CCM for two different PDUs, first PDU under a new key uses counter 0. counter::increment/copy_to: 256 high octets x 16 low words x 0..4 increments. Payload ids and packet counters modulo 4.",
+    bound="every sequence may contain one new connection (reset_pdu_buffer() on the same object, central restarts with SN=NESN=0) and one non-empty PDU with the reserved LLID 0 (quick units mix58 / mix87: new connection only). units rx87d / mix58_87d: max_rx_size( 70 ) and central payloads of 31, 32, 33, 64 octets (lengths whose low 5 bits are 0), receive direction alone 10 events (thorough: fixpoint or 60) / both directions 5 (6). units mix58_87 / mix87_58: TransmitSize != ReceiveSize, both directions, 5 events (thorough 6). quick: TX=RX=29 all reachable states (fixpoint, incl. a central repeating acknowledged PDUs); TX=RX=58 both directions 6 connection events, 87 both directions 5, 58 with a central that also repeats acknowledged PDUs 4; receive direction alone (nothing committed): 58 12 events, 87 8 events; transmit direction alone (central sends empty PDUs): 58 7 events, 87 8 events; real nrf52 ISR as device under test: 58 both directions 4 events. thorough: 58 both directions 9 events (alphabet without new connection / LLID 0) and 7 events (with them), 61 (library default) 6, 87 6, repeated-acknowledged variant 6; receive direction alone: fixpoint = all reachable states for 58 (also with repeated acknowledged PDUs) and 87, 87 with repeated acknowledged PDUs 12 events; transmit direction alone 9 (58) / 12 (87) events; real ISR: 58 7 events, 87 6, receive direction fixpoint, transmit direction 9. nrf52.cpp (radio_hardware_with_crypto_support, real nrf52_radio object, registers in RAM): all sequences of 8 (thorough 10) steps of {setup_encryption, start/stop receive/transmit encryption in the orders the link layer's start / pause / disconnect procedures produce, non-empty PDUs in both directions acknowledged or resent}: no (key/IV, direction, packet counter) given to the CCM for two different PDUs, first PDU under a new key uses counter 0. counter::increment/copy_to: 256 high octets x 16 low words x 0..4 increments. Payload ids and packet counters modulo 4.",
     units=[dict(src="harness/C15_ll_buffer.cpp", defs=["ORACLE=16"],
                 variants=[_v("mix29", 29, 0, 1, 40, 40),
                           _v("mix58", 58, 0, 0, 6, 9, extra=["LLID0_Q=0", "RESETS_T=0", "LLID0_T=0", "IRQ_T=0"]),   # quick: with new connection; thorough: the plain alphabet to 9 events
@@ -26,6 +26,9 @@ reg("C16",
                           # transmit and receive memory of different size ( the two rings share one array )
                           _v("mix58_87", 58, 0, 0, 5, 6, extra=["TXBUF=58", "RXBUF=87", "LLID0_Q=0", "RESETS_Q=0"]),
                           _v("mix87_58", 58, 0, 0, 5, 6, extra=["TXBUF=87", "RXBUF=58", "LLID0_Q=0", "RESETS_Q=0"]),
+                          # data length extension in the receive direction: max_rx_size( 70 ), central payloads 31 / 32 / 33 / 64 octets
+                          _v("rx87d", 87, 1, 0, 10, 60, extra=["DLE=1"]),
+                          _v("mix58_87d", 58, 0, 0, 5, 6, extra=["TXBUF=58", "RXBUF=87", "DLE=1"]),
                           _v("mix61", 61, 0, 0, 6, 6, thorough_only=True),
                           _v("rx58", 58, 1, 0, 12, 60),
                           _v("rx58f", 58, 1, 1, 60, 60, thorough_only=True),
@@ -56,7 +59,7 @@ reg("C16",
         "MIC errors only on non-empty PDUs (hardware evaluates no MIC for empty ones); C15/C16 explore MIC failures only on resent, already delivered PDUs (the case an encrypted link produces) - a MIC failure on a new PDU is quantified by C17 only",
         "a valid new PDU may be NAKed (flow control); what is demanded is that NESN never advances without the PDU being stored and that the transmit ring is only released by a valid header",
         "liveness (drain) is not judged when the *empty* receive ring cannot provide a buffer - that is the ring buffer's allocation policy (C18), it shows with TX=RX=29",
-        "default max_rx_size / max_tx_size (29); PDU sizes 1 and 27 bytes; stop mode and the more-data bit are out of scope",
+        "default max_rx_size / max_tx_size (29) and PDU sizes 1 and 27 bytes, except units *d: max_rx_size 70 with payloads 31 / 32 / 33 / 64; stop mode and the more-data bit are out of scope",
         "a non-empty PDU with the reserved LLID 0 may be acknowledged (pinned by LL_CON_PER_BI_17_C_*), must never be handed up (C15) and, once acknowledged, counts for the receive packet counter like any non-empty PDU (C16: the central's CCM counted it)",
         "new connection: between two connections the link layer may use raw_pdu_buffer() (advertising), so the harness overwrites the buffer memory with a constant before reset_pdu_buffer(); packet counters, payload numbering and the central restart, bit 3 of the payload tag tells the two connections apart; after the reset both rings have to be empty and the first committed PDU has to reach the new central",
         "ids and counters are kept modulo 4: a displacement by a multiple of 4 PDUs would alias (ring occupancy counts are checked independently)"],
